@@ -4,6 +4,8 @@ import (
 	"fmt"
 	"math/bits"
 
+	hc "verif/hcommon"
+
 	"github.com/pdok/texel/morton"
 )
 
@@ -19,7 +21,7 @@ func specInterleave(x, y uint64) uint64 {
 	return z
 }
 
-func runC17(c *Ctx) error {
+func runC17(c *hc.Ctx) error {
 	c.CorrInit("Texel.Corr.C17", "theories/Corr/C17.v", 2000)
 	c.Sum.Rule = "pairs (x,y): all one- and two-bit patterns per axis, random 32-bit, random wide (up to 64 bit), values at and above 2^32; distinct = distinct (x,y); non-trivial = x or y has >= 2 bits set or exceeds 2^32"
 	c.Sum.Oracle = "on the implementation: ToZ(x,y) equals the bit-by-bit interleaving and ok iff both < 2^32; FromZ(ToZ(x,y)) = (x,y); parent key = key >> 2; FromZ equals de-interleaving on random 64-bit keys"
@@ -72,23 +74,23 @@ func runC17(c *Ctx) error {
 			c.Count("multi-bit 32-bit")
 		}
 		if ok != fits {
-			c.Violate(Violation{What: "not-encodable flag wrong", Input: map[string]any{"x": p.x, "y": p.y}, Observed: ok, Expected: fits})
+			c.Violate(hc.Violation{What: "not-encodable flag wrong", Input: map[string]any{"x": p.x, "y": p.y}, Observed: ok, Expected: fits})
 		}
 		if fits {
 			if uint64(z) != specInterleave(p.x, p.y) {
-				c.Violate(Violation{What: "ToZ is not the interleaving of x and y (keys collide or are not hierarchical)", Input: map[string]any{"x": p.x, "y": p.y}, Observed: uint64(z), Expected: specInterleave(p.x, p.y)})
+				c.Violate(hc.Violation{What: "ToZ is not the interleaving of x and y (keys collide or are not hierarchical)", Input: map[string]any{"x": p.x, "y": p.y}, Observed: uint64(z), Expected: specInterleave(p.x, p.y)})
 			}
 			fx, fy := morton.FromZ(z)
 			if uint64(fx) != p.x || uint64(fy) != p.y {
-				c.Violate(Violation{What: "FromZ(ToZ(x,y)) != (x,y)", Input: map[string]any{"x": p.x, "y": p.y, "z": uint64(z)}, Observed: []uint64{uint64(fx), uint64(fy)}})
+				c.Violate(hc.Violation{What: "FromZ(ToZ(x,y)) != (x,y)", Input: map[string]any{"x": p.x, "y": p.y, "z": uint64(z)}, Observed: []uint64{uint64(fx), uint64(fy)}})
 			}
 			pz, _ := morton.ToZ(uint(p.x/2), uint(p.y/2))
 			if uint64(pz) != uint64(z)>>2 {
-				c.Violate(Violation{What: "parent key is not key>>2", Input: map[string]any{"x": p.x, "y": p.y}, Observed: uint64(pz), Expected: uint64(z) >> 2})
+				c.Violate(hc.Violation{What: "parent key is not key>>2", Input: map[string]any{"x": p.x, "y": p.y}, Observed: uint64(pz), Expected: uint64(z) >> 2})
 			}
 		}
 		if i%corrEvery == 0 || !fits {
-			c.Case(fmt.Sprintf("ToZCase %s %s %s %s", coqN(p.x), coqN(p.y), coqN(uint64(z)), coqBool(ok)),
+			c.Case(fmt.Sprintf("ToZCase %s %s %s %s", hc.CoqN(p.x), hc.CoqN(p.y), hc.CoqN(uint64(z)), hc.CoqBool(ok)),
 				map[string]any{"op": "ToZ", "x": p.x, "y": p.y, "z": uint64(z), "ok": ok})
 		}
 		if i < 3 {
@@ -117,9 +119,9 @@ func runC17(c *Ctx) error {
 		}
 		c.Nontrivial(fmt.Sprintf("z%d", z))
 		if uint64(x) != ex || uint64(y) != ey {
-			c.Violate(Violation{What: "FromZ is not the de-interleaving", Input: map[string]any{"z": z}, Observed: []uint64{uint64(x), uint64(y)}, Expected: []uint64{ex, ey}})
+			c.Violate(hc.Violation{What: "FromZ is not the de-interleaving", Input: map[string]any{"z": z}, Observed: []uint64{uint64(x), uint64(y)}, Expected: []uint64{ex, ey}})
 		}
-		c.Case(fmt.Sprintf("FromZCase %s %s %s", coqN(z), coqN(uint64(x)), coqN(uint64(y))), map[string]any{"op": "FromZ", "z": z, "x": uint64(x), "y": uint64(y)})
+		c.Case(fmt.Sprintf("FromZCase %s %s %s", hc.CoqN(z), hc.CoqN(uint64(x)), hc.CoqN(uint64(y))), map[string]any{"op": "FromZ", "z": z, "x": uint64(x), "y": uint64(y)})
 		if i < 2 {
 			c.Sample(map[string]any{"op": "FromZ", "z": z, "x": uint64(x), "y": uint64(y)})
 		}
